@@ -67,6 +67,10 @@ def checkNode (o : Oracle) (r : RunObs) (role : Role) (s : NSpec) (offered : Lis
   let identity : List Viol := if ob.bad ≠ "-" then [⟨"C02", "report-does-not-carry-original-event-and-error"⟩] else []
   let discardAcc : List Viol :=
     if ob.discarded + ob.recv.length ≠ offered.length && subMultiset ob.recv offered then [⟨"C04", "discard-not-counted"⟩, ⟨"C16", "discarded-counter"⟩] else []
+  -- `buffer_full_events_total` counts "events that caused blocking because the node's buffer was full": a discarding node
+  -- must never be delivered to by the blocking path
+  let blocking : List Viol :=
+    if s.discard && ob.bufferFull > 0 then [⟨"C04", "blocking-delivery-to-discarding-node"⟩] else []
   let counters : List Viol :=
     (if ob.received ≠ ob.recv.length then [⟨"C16", "received-counter"⟩] else []) ++
     (if ob.processed ≠ count o s ob.recv isPass then [⟨"C16", "processed-counter"⟩] else []) ++
@@ -81,7 +85,7 @@ def checkNode (o : Oracle) (r : RunObs) (role : Role) (s : NSpec) (offered : Lis
       [⟨"C03", "shutdown-before-processing-returned"⟩, ⟨"C05", "shutdown-overlaps-processing-call"⟩] else []) ++
     (if r.returned && ob.shutdowns = 1 && ob.recv.length > 0 && !(ob.seqLastEnter < ob.seqShutEnter) then [⟨"C03", "event-after-shutdown-began"⟩] else []) ++
     (if r.returned && ob.shutdowns = 1 && !(ob.seqShutExit < r.seqReturn) then [⟨"C03", "execute-returned-before-shutdown"⟩] else [])
-  conservation ++ identity ++ discardAcc ++ counters ++ lifecycle
+  conservation ++ identity ++ discardAcc ++ blocking ++ counters ++ lifecycle
 
 /-- parent → child/handler ordering: the downstream node's Shutdown begins only after the parent's has returned -/
 def checkEdge (r : RunObs) (parent child : NSpec) : List Viol :=
